@@ -57,6 +57,44 @@ Proof.
   destruct (need <=? length (delivered s))%nat; [exact H|]. destruct H as [e [He _]]. exists e. exact He.
 Qed.
 
+(* ---------- conservation: io.ReadFull neither drops, duplicates nor reorders a byte of the source ----------
+   pending s = the data still to come from the source, in order (error marks forgotten).  Whatever the
+   fragmentation and wherever an error sits: the bytes already in the buffer followed by what the source
+   still holds before the call = the buffer returned followed by what the source holds afterwards.
+   (The harness observes exactly this quantity: `used` = bytes taken from the scripted reader.) *)
+Definition pending (s : script) : list byte := concat (map fst s).
+
+Lemma read_loop_conserves need : forall s got,
+  got ++ pending s = fst (fst (read_loop need got s)) ++ pending (snd (read_loop need got s)).
+Proof.
+  induction s as [|[d e] rest IH]; intros got; cbn [read_loop]; [reflexivity|].
+  unfold pending in *. cbn [map fst concat].
+  destruct (Nat.leb_spec (length d) (need - length got)) as [Hfit|Hbig].
+  - destruct (Nat.leb_spec need (length (got ++ d))) as [Hfull|Hshort].
+    + cbn [fst snd]. rewrite <- app_assoc. reflexivity.
+    + destruct e as [err|].
+      * cbn [fst snd]. rewrite <- app_assoc. reflexivity.
+      * rewrite <- IH. rewrite <- app_assoc. reflexivity.
+  - cbn [fst snd map concat]. rewrite <- app_assoc. f_equal. rewrite app_assoc, firstn_skipn. reflexivity.
+Qed.
+
+Theorem read_full_conserves need s :
+  pending s = fst (fst (read_full need s)) ++ pending (snd (read_full need s)).
+Proof.
+  unfold read_full. destruct (need =? 0)%nat; [reflexivity|].
+  exact (read_loop_conserves need s []).
+Qed.
+
+(* on success exactly `need` bytes have left the source - no read-ahead, nothing skipped *)
+Corollary read_full_takes_exactly need s : (0 < need)%nat -> (need <= length (delivered s))%nat ->
+  pending s = firstn need (delivered s) ++ pending (snd (read_full need s))
+  /\ length (pending s) = (need + length (pending (snd (read_full need s))))%nat.
+Proof.
+  intros Hn Hd. pose proof (read_full_spec need s Hn) as R. apply Nat.leb_le in Hd. rewrite Hd in R.
+  pose proof (read_full_conserves need s) as C. rewrite R in C. cbn [fst] in C.
+  split; [exact C|]. rewrite C at 1. rewrite app_length, firstn_length. apply Nat.leb_le in Hd. lia.
+Qed.
+
 (* the binary-length variant the model executes is the same function *)
 Lemma read_loop_N_eq need : forall s got, read_loop_N need got s = read_loop (N.to_nat need) got s.
 Proof.
@@ -106,4 +144,28 @@ Proof.
     assert (Hlen : length (firstn need (delivered s)) = (4 * k)%nat) by (apply Nat.leb_le in L; rewrite firstn_length; lia).
     rewrite Hn, (fromEntropy_spec _ k lg Hlen) by lia. reflexivity.
   - destruct R as [e ->]. exists e. reflexivity.
+Qed.
+
+(* NewMnemonic takes from its source exactly the bytes it encodes; a rejected word count takes nothing *)
+Theorem NewMnemonic_conserves n lg s : valid_wc_z n ->
+  let need := Z.to_nat (n + n / 3) in
+  exists buf, length buf <= need /\ pending s = buf ++ pending (snd (NewMnemonic n lg s))
+    /\ ((need <= length (delivered s))%nat -> buf = firstn need (delivered s)).
+Proof.
+  intros Hv need. unfold NewMnemonic.
+  rewrite (proj2 (gate_words_spec n) Hv).
+  assert (Hq : (n + Z.quot n 3 = n + n / 3)%Z) by (unfold valid_wc_z in Hv; lia). rewrite Hq.
+  assert (Hneg : ((n + n / 3 <? 0) || (281474976710656 <? n + n / 3))%Z = false) by (unfold valid_wc_z in Hv; lia). rewrite Hneg.
+  assert (Hpos : (0 < need)%nat) by (unfold need, valid_wc_z in *; lia).
+  rewrite read_full_N_eq. replace (N.to_nat (Z.to_N (n + n / 3))) with need by (unfold need; lia).
+  pose proof (read_full_conserves need s) as C. pose proof (read_full_spec need s Hpos) as R.
+  destruct (read_full need s) as [[buf err] s'] eqn:E. cbn [fst snd] in C, R.
+  exists buf. split; [|split].
+  - destruct (need <=? length (delivered s))%nat eqn:L.
+    + injection R as -> _. rewrite firstn_length. lia.
+    + unfold read_full in E. destruct (need =? 0)%nat eqn:Z0; [apply Nat.eqb_eq in Z0; lia|].
+      pose proof (read_loop_spec need s [] Hpos) as Q. cbn [app] in Q. rewrite L, E in Q. cbn [fst snd] in Q.
+      destruct Q as [e [_ Hl]]. lia.
+  - destruct err; cbn [snd]; exact C.
+  - intros Hd. apply Nat.leb_le in Hd. rewrite Hd in R. injection R as -> _. reflexivity.
 Qed.
